@@ -18,7 +18,8 @@ HSets == {<<"h1">>, <<"h2">>, <<"h1", "h2">>, <<>>}
 MethodName(i) == "m" \o ToString(i)
 RM(i, hs, on, pay, data) ==
     [name |-> MethodName(i), handlers |-> hs, on |-> on, data |-> data, payload |-> pay,
-     spell |-> "a",      \* how the arguments of a two-argument data attribute are ordered in the source ("b": `opt` first)
+     spell |-> "a",      \* how the data attribute is spelled in the source ("b": `opt` first; "c": `#[sv::data()]` for the plain mode)
+     hsplit |-> FALSE,   \* TRUE: every handler name in an argument of its own (`handlers=[h1], handlers=[h2]`)
      outcome |-> IF i = 2 THEN "err" ELSE "ok"]
 Choice == HSets \X Outcomes \X {"raw", "t2"}
 TablesOfLen(n) == {[i \in 1..n |-> RM(i, c[i][1], c[i][2], c[i][3], "none")] : c \in [1..n -> Choice]}
@@ -49,6 +50,13 @@ DataProg(i) == [id |-> "D" \o ToString(i), family |-> "data",
 (* the same modes with the attribute's arguments written in the other order: `#[sv::data(opt, raw)]`, `#[sv::data(opt, instantiate)]` *)
 DataProgB(i) == [id |-> "DB" \o ToString(i), family |-> "data",
                  methods |-> << [RM(1, <<"h1">>, "success", "raw", DataModes[i]) EXCEPT !.name = "on_ok", !.spell = "b"] >>]
+DataProgC == [id |-> "DC1", family |-> "data",
+              methods |-> << [RM(1, <<"h1">>, "success", "t2", "plain") EXCEPT !.name = "on_ok", !.spell = "c"] >>]
+(* the handler names of a method given in several `handlers=` arguments *)
+SplitHandlers(errFirst) ==
+    LET s == [RM(1, <<"h1", "h2">>, "success", "t2", "none") EXCEPT !.name = "on_ok", !.hsplit = TRUE]
+        e == [RM(2, <<"h1", "h2">>, "error", "t2", "none") EXCEPT !.name = "on_err"]
+    IN [id |-> IF errFirst THEN "SPe" ELSE "SPs", family |-> "data", methods |-> IF errFirst THEN <<e, s>> ELSE <<s, e>>]
 (* two methods with complementary outcomes that share *two* handler names *)
 SharedTwo(errFirst) ==
     LET s == [RM(1, <<"h1", "h2">>, "success", "t2", "none") EXCEPT !.name = "on_ok"]
@@ -87,6 +95,7 @@ CompiledProgs ==
       \cup {DataProg(i) : i \in 1..Len(DataModes)}
       \cup {DataProgB(i) : i \in {4, 6}}
       \cup {SharedTwo(b) : b \in BOOLEAN}
+      \cup {SplitHandlers(b) : b \in BOOLEAN} \cup {DataProgC}
       \cup {DataProgMerged(i, b) : i \in {1, 3, 5}, b \in BOOLEAN}
       \cup {MixProg(i) : i \in 1..4}
       \cup {NamedPayloadProg(i) : i \in 1..3}
